@@ -295,17 +295,49 @@ func c12BootstrapTCP(c *core.Ctx, rng *rand.Rand) {
 	}
 	bs := netty.NewBootstrap(netty.WithChildInitializer(srvInit), netty.WithClientInitializer(cliInit),
 		netty.WithTransport(tcp.New()))
-	l := bs.Listen(url)
+	// one custom options value shared by the listener and every Connect (the usual way to use tcp.WithOptions); the
+	// unset fields (zero dial timeout = none, zero buffer sizes) are legal values
+	opts := &tcp.Options{KeepAlive: rng.Intn(2) == 0, Linger: -1, NoDelay: true}
+	if rng.Intn(3) == 0 {
+		opts.Timeout = 2 * time.Second
+	}
+	if rng.Intn(3) == 0 {
+		opts.ReadBufferSize, opts.WriteBufferSize = 512, 512
+	}
+	wo := tcp.WithOptions(opts)
+	l := bs.Listen(url, wo)
 	errc := make(chan error, 1)
 	l.Async(func(err error) { errc <- err })
-	// wait until the port answers
+	// wait until the port answers: several clients connect at the same time
 	var ch netty.Channel
 	var err error
-	for i := 0; i < 200; i++ {
-		if ch, err = bs.Connect(url); err == nil {
-			break
-		}
-		time.Sleep(time.Millisecond)
+	var cmu sync.Mutex
+	var cwg sync.WaitGroup
+	for g := 0; g < 3; g++ {
+		cwg.Add(1)
+		go func() {
+			defer cwg.Done()
+			for i := 0; i < 200; i++ {
+				c1, e1 := bs.Connect(url, wo)
+				if e1 == nil {
+					cmu.Lock()
+					if ch == nil {
+						ch = c1
+					}
+					cmu.Unlock()
+					return
+				}
+				cmu.Lock()
+				err = e1
+				cmu.Unlock()
+				time.Sleep(time.Millisecond)
+			}
+		}()
+	}
+	cwg.Wait()
+	if ch != nil {
+		err = nil
+		c.Count("tcp_concurrent_connect_rounds", 1)
 	}
 	if err != nil {
 		bs.Shutdown()
